@@ -10,6 +10,7 @@
 The models: `use_location`, `use_navigate`, `request_animation_frame`, the context's locale cell, the StoredValue cells, the
 thread-local CURRENT_ROUTE_LOCALE, leptos_router's StaticSegment::test and the inner route (a list of per-locale segment
 tables). leptos' reactive scheduling and the browser history are not modelled (not applicable to static analysis)."""
+import re
 from rules import absint, c14
 from rules.absint import AEval, A, B, C, CF, L, T, UNIT, Unknown
 
@@ -372,6 +373,73 @@ def check_families(ctx, r, rid="R5"):
             bad.setdefault("generate_routes#unprefixed", "generate_routes no longer appends the unprefixed family generated under the default locale")
     else:
         bad.setdefault("generate_routes#missing", "I18nNestedRoute::generate_routes was not found")
+    # ---- the route locale is thread-local state and the families are produced by *lazy* iterators: the inner routes must be asked
+    # (`MatchNestedRoutes::match_nested / generate_routes(&self.route)`) in the same unit of execution that set the locale for them -
+    # the same function / closure body after the `set_current_route_locale` call, or a closure nested in that closure.  A set call in
+    # the function body with the inner call inside a closure handed to a lazy iterator constructor (`once_with`, `map`, `flat_map` ..)
+    # runs the closure later, under whatever locale was set last.
+    try:
+        prog = ctx.mir("main")
+    except Exception:  # noqa: BLE001
+        prog = None
+    if prog is not None:
+        from mirlib import callee_name as _cn, op_place as _op
+        LAZY = re.compile(r"iter::(sources::)?(once_with|from_fn|repeat_with|successors)(::\w+)?$|Iterator::(map|flat_map|filter_map|filter|inspect|scan|take_while|map_while|skip_while|flat_map)$|::then$|LazyCell|Lazy::new")
+        roots = [n_ for n_ in prog.bodies if re.search(r"I18nNestedRoute<.*>::(match_nested|generate_routes)$|I18nNestedRoute::<.*>::generate_routes_for_each_locale$", n_)]
+        units = 0
+        for root in roots:
+            fam_ = {b_.name: b_ for b_ in prog.family(prog.bodies[root])}
+            for bn, bb in sorted(fam_.items()):
+                inner = [i_ for i_, t_ in bb.calls() if re.search(r"MatchNestedRoutes>?::(match_nested|generate_routes)$", _cn(t_) or "")]
+                if not inner:
+                    continue
+                units += 1
+                # walk out through the enclosing closures
+                cur, okk, why_ = bn, False, None
+                while True:
+                    cb = fam_.get(cur)
+                    sets = [i_ for i_, t_ in cb.calls() if re.search(r"routing::set_current_route_locale$", _cn(t_) or "")] if cb is not None else []
+                    if sets and (cur != bn or all(any(cb.dominates(s_, i_) for s_ in sets) for i_ in inner)):
+                        if cur == bn or cur != root:
+                            okk = True
+                            break
+                        # the set call is in the function body, the inner call in a closure: fine when the closure runs at once, not
+                        # when it is handed to a lazy iterator constructor
+                        top = bn
+                        while top.rsplit("::{closure#", 1)[0] != root:
+                            top = top.rsplit("::{closure#", 1)[0]
+                        lazy_ = None
+                        rb = fam_[root]
+                        for _i, _j, st_ in rb.assigns():
+                            if st_["rv"]["k"] == "Aggregate" and st_["rv"].get("agg") == "Closure" and st_["rv"].get("def") == top:
+                                cl_locals = {st_["place"]["l"]}
+                                grew = True
+                                while grew:          # moves, also through the `Cast Subtype` rustc inserts for closures
+                                    grew = False
+                                    for _i2, _j2, s2_ in rb.assigns():
+                                        if s2_["rv"]["k"] in ("Use", "Cast") and not s2_["place"]["p"] and s2_["place"]["l"] not in cl_locals and s2_["rv"].get("ops"):
+                                            p2_ = _op(s2_["rv"]["ops"][0])
+                                            if p2_ and not p2_["p"] and p2_["l"] in cl_locals:
+                                                cl_locals.add(s2_["place"]["l"])
+                                                grew = True
+                                for ci_, ct_ in rb.calls():
+                                    if any((_op(a_) or {}).get("l") in cl_locals for a_ in ct_["args"]) and LAZY.search(_cn(ct_) or ""):
+                                        lazy_ = _cn(ct_)
+                        if lazy_ is None:
+                            okk = True
+                        else:
+                            why_ = "the locale is set in the function body, but the inner routes are asked inside a closure handed to `%s`, which runs it later" % lazy_.split("::")[-1]
+                        break
+                    if "::{closure#" not in cur or cur == root:
+                        break
+                    cur = cur.rsplit("::{closure#", 1)[0]
+                if not okk:
+                    fn_ = root.split("::")[-1]
+                    bad.setdefault("%s#locale-set-in-the-same-unit" % fn_, "%s: %s" % (fn_, why_ or "the inner routes are asked (`%s`) without the route locale having been set in the same closure / function body before" % bn.split("::", 3)[-1][-60:]))
+        if units < 4:
+            bad.setdefault("families#units", "only %d places where the inner routes are asked were found in match_nested / generate_routes / generate_routes_for_each_locale (4 on the pinned tree)" % units)
+        else:
+            n += units
     for k, msg in sorted(bad.items()):
         r.viol("%s:%s" % (rid, k), msg, file=F, line=(mn[0].line if k.startswith("match_nested") else fams[0].line))
     if not bad:
